@@ -796,7 +796,8 @@ theorem scopesAddVariable_step {c : IndexCtx} (hi : Inv c) {v : Variable} (hloc 
     exact Holds.pure h2
 
 /-- `index::utils::identifier` -/
-theorem utilsIdentifier_spec {c0 c : IndexCtx} (h : Post c0 c) {k : Nat} {n : PTree} (hn : Fits k c0 n) :
+theorem utilsIdentifier_spec {c0 c : IndexCtx} (h : Post c0 c) {k : Nat} {n : PTree} (hn : Fits k c0 n)
+    (hk : n.kind = .Identifier) :
     Holds (utilsIdentifier n) c (fun r c' => c = c' ∧ ∀ name loc, r = some (name, loc) → TokIn c0 loc name) := by
   unfold utilsIdentifier
   split
@@ -819,7 +820,8 @@ theorem utilsIdentifier_spec {c0 c : IndexCtx} (h : Post c0 c) {k : Nat} {n : PT
       obtain ⟨f', hf', hd⟩ := hn.cur
       rw [hf0] at hf'
       cases hf'
-      exact ⟨hf0, t, hd.trans (PTree.firstToken_desc ht).1, (PTree.firstToken_desc ht).2, rfl, rfl, rfl⟩
+      exact ⟨hf0, t, hd.trans (PTree.firstToken_desc ht).1, (PTree.firstToken_desc ht).2, rfl, rfl, rfl,
+        n, hd, hn.isNode, hk, ht⟩
     · exact Holds.pure ⟨rfl, by intro _ _ hl; cases hl⟩
   · exact Holds.pure ⟨rfl, by intro _ _ hl; cases hl⟩
 
